@@ -741,7 +741,11 @@ func runExchange(r *Rng, tier string) {
 					got = "err:unpack"
 				}
 			}
-			Emit("xdgram", []string{Itoa(int(qid)), Itoa(bufsize), strings.Join(repHex, ","), strings.Join(bad, ",")}, got)
+			dg := make([]string, len(repHex)) // "d"+hex, so that an empty datagram is distinguishable from no datagram
+			for i, h := range repHex {
+				dg[i] = "d" + h
+			}
+			Emit("xdgram", []string{Itoa(int(qid)), Itoa(bufsize), strings.Join(dg, ","), strings.Join(bad, ",")}, got)
 			stat["xdgram_cases"]++
 			if strings.HasPrefix(got, "ok:") {
 				stat["xdgram_ok"]++
@@ -1140,7 +1144,7 @@ func runScriptedTCP(r *Rng, nconn, per int) {
 func runLoopback(r *Rng, nclients, per int) {
 	for _, network := range []string{"udp", "tcp"} {
 		x := &xtalk{}
-		srv := &dns.Server{Handler: dns.HandlerFunc(x.handler)}
+		srv := &dns.Server{Handler: dns.HandlerFunc(x.handler), MaxTCPQueries: -1} // clients keep one connection for all requests
 		started := make(chan struct{})
 		srv.NotifyStartedFunc = func() { close(started) }
 		var addr string
